@@ -86,6 +86,9 @@ func commandPattern(n *Node) string {
 		}
 	}
 	for _, p := range n.Params {
+		if n.HiddenParams {
+			break
+		}
 		fmt.Fprintf(&b, " -p %s={p:%s}", p.Name, p.Name)
 	}
 	for _, k := range n.TagArgs {
